@@ -121,7 +121,10 @@ def gen_cases(tier, seed):
         # the entries of the source directory selected by a pattern instead of the directory being named (a bad link among them is
         # then a source of its own)
         globtop = not top and not into_dest and r.random() < 0.2
-        yield {"globtop": globtop, "deep": None, "into_dest": into_dest, "topdst": topdst, "top": top, "spec": spec, "driver": driver, "classes": sorted(classes), "bad": bad, "maxchain": maxchain, "fs": "ext4",
+        # the destination already holds a copy made *without* -L (links as links): whatever the second run does about them, exit 0
+        # still means a destination without links
+        recopy = not top and not into_dest and not globtop and r.random() < 0.2
+        yield {"recopy": recopy, "globtop": globtop, "deep": None, "into_dest": into_dest, "topdst": topdst, "top": top, "spec": spec, "driver": driver, "classes": sorted(classes), "bad": bad, "maxchain": maxchain, "fs": "ext4",
                "args": ["--driver", driver, "-w", str(r.choice([0, 1, 2, 4]))] + r.choice([[], [], ["--fsync"], ["--no-perms"], ["--gitignore"], ["--reflink", "never"], ["--no-progress"], ["--block-size", "4096"], ["-n"], ["--backup", "numbered"], ["--ownership"], ["-v"]])
                        + ["-r", "-L", "src", "dst"]}
 
@@ -232,6 +235,10 @@ def run_case(case):
             if case.get("topdst") == "existing-dir":
                 os.mkdir(os.path.join(b(root), b"dst"))
                 dstroot = "dst/srclink"     # copied *into* the directory, under the link's own name
+        if case.get("recopy"):
+            first = core.run_plain(core.xcp_argv(["--driver", case["driver"], "-r", "-T", "src", "dst"]), root)
+            args = args[:-2] + ["-T", "src", "dst"]
+            res["counters"]["runs-over-a-copy-made-without-L"] = 1
         if case.get("globtop"):
             os.mkdir(os.path.join(b(root), b"dst"))
             args = args[:-2] + ["--glob", r"src/*", "dst"]
